@@ -1018,6 +1018,11 @@ pub fn check_main(check: &'static dyn Check, tier: Tier) -> i32 {
         eprintln!("harness error: cannot write {}: {}", evpath, e);
         return 2;
     }
+    if tier == Tier::Thorough {
+        // keep a copy that a later quick run does not overwrite
+        let _ = std::fs::create_dir_all(format!("{}/thorough", evdir));
+        let _ = std::fs::write(format!("{}/thorough/{}.json", evdir, check.id()), serde_json::to_string_pretty(&evidence).unwrap());
+    }
 
     for l in &known_lines {
         println!("{}", l);
@@ -1061,7 +1066,8 @@ pub fn check_main(check: &'static dyn Check, tier: Tier) -> i32 {
 // determinism self-test support: print one fingerprint line per run so that two processes (or two
 // worker counts) can be diffed.
 
-pub fn selftest_fingerprints(n: u64, only: Option<&str>) -> i32 {
+pub fn selftest_fingerprints(n: u64, only: Option<&str>, part: Option<(u64, u64)>) -> i32 {
+    let mut counter = 0u64;
     let seed = verif_seed();
     let stdout = std::io::stdout();
     let mut out = stdout.lock();
@@ -1078,6 +1084,12 @@ pub fn selftest_fingerprints(n: u64, only: Option<&str>) -> i32 {
                 for k in 0..m {
                     // spread the indices over the section
                     let index = if m == s.runs { k } else { (k * (s.runs / m)).min(s.runs - 1) };
+                    counter += 1;
+                    if let Some((kk, mm)) = part {
+                        if counter % mm != kk {
+                            continue;
+                        }
+                    }
                     let p = Params {
                         property: check.id().to_string(),
                         tier,
